@@ -135,6 +135,8 @@ type Scenario struct {
 	KMOwner *SimEntity
 	KMNodes []*SimNode
 	KMRSK   *Account
+	// IdleOwner is a node-less genesis entity owning a runtime that is suspended at genesis (idleowner.go; nil without one).
+	IdleOwner *SimEntity
 }
 
 func q(v uint64) quantity.Quantity { return *quantity.NewFromUint64(v) }
@@ -243,6 +245,7 @@ func NewScenario(seed uint64, profile string) *Scenario {
 	s.Doc = s.buildDoc(rng)
 	s.addRuntime(rng, profile)    // runtime support (drawn after all other scenario draws)
 	s.addKeyManager(rng, profile) // key manager support (drawn after the runtime's draws)
+	s.addIdleOwner(profile)       // idle owner of a suspended runtime (draws nothing from rng)
 	return s
 }
 
